@@ -523,6 +523,51 @@ func c02CheckCreate(c c02CreateCase) engine.Result {
 						}
 					}
 				}
+				// an option named twice, and the option functions applied to a packet that exists already, for
+				// every value of the header byte they act on: the flag is set (also when it was set before), an
+				// option applied twice gives what it gives once, no other byte changes
+				if pid%64 == 0 {
+					type optCase struct {
+						name string
+						f    func(*packet.Packet)
+						at   int
+						bit  byte
+						hdr  bool
+					}
+					for _, oc := range []optCase{
+						{"WithPUSI", packet.WithPUSI, 1, 0x40, true}, {"WithHasPayloadFlag", packet.WithHasPayloadFlag, 3, 0x10, true},
+						{"WithHasAdaptationFieldFlag", packet.WithHasAdaptationFieldFlag, 3, 0x20, true},
+						{"WithAFPrivateDataFlag", packet.WithAFPrivateDataFlag, 5, 0x02, false}, {"WithDiscontinuousAF", packet.WithDiscontinuousAF, 5, 0x80, false},
+						{"WithContinuousAF", packet.WithContinuousAF, 5, 0x00, false},
+					} {
+						once, twice := packet.Create(pid, oc.f), packet.Create(pid, oc.f, oc.f)
+						if *once != *twice {
+							res.Failf("Create|option-named-twice", "Create(pid, %s, %s) differs from Create(pid, %s): % x vs % x", oc.name, oc.name, oc.name, twice[:6], once[:6])
+						}
+						for b := 0; b < 256; b++ {
+							var q packet.Packet
+							for i := range q {
+								q[i] = byte(0x11 + i*3)
+							}
+							q[0], q[oc.at] = 0x47, byte(b)
+							before := q
+							oc.f(&q)
+							after1 := q
+							oc.f(&q)
+							res.Evals++
+							if q != after1 {
+								res.Failf("Create|option-applied-twice", "%s on byte %#02x: second application changes the packet again (% x -> % x)", oc.name, b, after1[:6], q[:6])
+							}
+							if q[oc.at]&oc.bit != oc.bit || (oc.hdr && q[oc.at] != byte(b)|oc.bit) {
+								res.Failf("Create|option-on-existing-packet|flag", "%s on byte %#02x gives %#02x", oc.name, b, q[oc.at])
+							}
+							q[oc.at] = before[oc.at]
+							if q != before {
+								res.Failf("Create|option-on-existing-packet|other-bytes", "%s changed bytes other than byte %d", oc.name, oc.at)
+							}
+						}
+					}
+				}
 				// the adaptation-field flag options (they act on the flag byte that follows the length byte)
 				for mask := 0; mask < 16; mask++ {
 					var o []func(*packet.Packet)
